@@ -1,6 +1,7 @@
 (* Properties/C03.v — priorities: the highest-priority writer wins, the latest among equals; metadata is combined. *)
 From AY Require Import Model.Merge Proofs.Prio Proofs.FactsOk Model.Loader Proofs.PrioBelow Spec.UpdateP Proofs.MergeGen Proofs.MergePrio Proofs.PrioPath Proofs.PrioLoad Proofs.PrioClass.
 From AY Require Model.Eval Proofs.EvalPlain Proofs.PrioLaws.
+From AY Require Import Spec.UpdatePM Proofs.MergePrioMeta Proofs.PrioMetaLoad.
 
 (* the order of the three priority constants is what the documentation says: !force > untagged > !weak *)
 Theorem C03_constants : (Facts.prio_weak <? Facts.prio_standard)%Z = true /\ (Facts.prio_standard <? Facts.prio_force)%Z = true
@@ -145,6 +146,34 @@ Theorem C03_update_is_pointwise : forall ds d0 q, q <> [] -> sp d0 q -> Forall (
   pget (fold_left upd_p ds d0) q = fold_left wr (map (fun d => pget d q) ds) (pget d0 q).
 Proof. exact pget_fold. Qed.
 Print Assumptions C03_update_is_pointwise.
+
+(* ---- user metadata (extension round): "user metadata attached to the competing values is combined under the same rule without
+   losing keys" as a statement about whole documents.  Spec/UpdatePM.upd_pm is upd_p with the metadata mapping of every node: at every
+   meeting the survivor's entries take precedence and the other value's extra keys are kept ({**loser, **survivor}; two mappings: the newer
+   one counts as the survivor iff its priority is not lower).  On the class of C03_priorities_refine the tree Builder.flatten builds has
+   exactly the image - values, priorities AND metadata of every node - of the left fold of upd_pm over the documents' images *)
+Theorem C03_metadata_refines : forall e c y0 ys, Forall yz (y0 :: ys) -> forallb is_YM (y0 :: ys) = true ->
+  hcompat (yprio None y0) (map (yprio None) ys) ->
+  exists n, flatten e (map (load_doc c) (y0 :: ys)) = Ok n /\ merase n = fold_left upd_pm (map (ymp None) ys) (ymp None y0).
+Proof. exact flatten_prio_meta_docs. Qed.
+Print Assumptions C03_metadata_refines.
+
+(* ... no key is lost and none is invented: whenever two values meet, whatever their kinds and priorities, the metadata keys of the
+   result are exactly those of the two ... *)
+Theorem C03_metadata_keys_at_every_meeting : forall a b x,
+  In x (UpdatePM.mkeys (mmeta (upd_pm a b))) <-> In x (UpdatePM.mkeys (mmeta a)) \/ In x (UpdatePM.mkeys (mmeta b)).
+Proof. exact upd_pm_meta_keys. Qed.
+Print Assumptions C03_metadata_keys_at_every_meeting.
+
+(* ... forgetting the metadata gives back the prioritised update ... *)
+Theorem C03_metadata_forgets_to_priorities : forall b a, forget (upd_pm a b) = upd_p (forget a) (forget b).
+Proof. exact forget_upd_pm. Qed.
+Print Assumptions C03_metadata_forgets_to_priorities.
+
+(* ... and the prediction the correspondence compares with Builder.build is sound *)
+Theorem C03_metadata_prediction_sound : forall e stages d, predict_meta stages = Some d -> exists n, flatten e stages = Ok n /\ merase n = d.
+Proof. exact predict_meta_ok. Qed.
+Print Assumptions C03_metadata_prediction_sound.
 
 (* non-vacuity: three documents; `a.x` is written weak, then force (through the enclosing mapping), then untagged;
    `a.y` only by the tagged mapping; `b` normal then weak *)
